@@ -352,9 +352,6 @@ func (fs *memFS) Rename(ctx context.Context, oldName, newName string) error {
 
 	oldName = slashClean(oldName)
 	newName = slashClean(newName)
-	if oldName == newName {
-		return nil
-	}
 	if strings.HasPrefix(newName, oldName+"/") {
 		// We can't rename oldName to be a sub-directory of itself.
 		return os.ErrInvalid
@@ -381,6 +378,10 @@ func (fs *memFS) Rename(ctx context.Context, oldName, newName string) error {
 	oNode, ok := oDir.children[oFrag]
 	if !ok {
 		return os.ErrNotExist
+	}
+	if oldName == newName {
+		// Renaming an existing file or directory onto itself is a no-op.
+		return nil
 	}
 	if oNode.children != nil {
 		if nNode, ok := nDir.children[nFrag]; ok {
